@@ -716,7 +716,13 @@ def run(ctx):
     r10 = borrow(c03.r2_recording(ctx, prog), "C01.R10", "a locale's own value is kept by the merge, the empty string included",
                  "`the text is exactly the translation written for that key in the effective locale; nothing is ... taken from another locale`: a merge "
                  "that treats some written values (e.g. \"\") as untranslated renders another locale's text", only=r"Locale::merge", floor=1)
-    return rules + [r4_emission(ctx), r5_pairing(ctx), r6_display(ctx), r7, r8, r9, r10]
+    # every kind of value a file can hold reaches the renderer as that kind (a float stays the float written, a map is a group,
+    # null the explicit default): the value visitor evaluated callback by callback (rules/c07.py R6)
+    from rules import c07
+    r11 = borrow(c07.r6_value_kinds(ctx), "C01.R11", "a file value is read as the kind of value it is written as",
+                 "`literal text verbatim`: a number is rendered from the value the visitor stores; a whole float converted to an integer with a saturating "
+                 "cast renders `18446744073709551615` for `1e20`", floor=9)
+    return rules + [r4_emission(ctx), r5_pairing(ctx), r6_display(ctx), r7, r8, r9, r10, r11]
 
 
 MANIFEST_ENTRY = {
